@@ -34,10 +34,14 @@ TNR ==
      /\ s' = IF s.wild THEN s ELSE NRNext(s, w, Ev.err)
   /\ UNCHANGED << cfg, fr >> /\ Adv
 
+(* Partial reads of a COMPRESSED message are not modelled (the inflater     *)
+(* decouples delivered bytes from wire position): the trace goes "wild".   *)
 TRD ==
   /\ Is("RD")
   /\ s.wild \/ s.rd # "none"
-  /\ LET w == IF s.rd = "open" THEN RDSeek(s, << >>) ELSE Out(s, << >>, "none", FALSE) IN
+  /\ IF ~s.wild /\ s.rd = "open" /\ fr[s.start].comp THEN s' = [s EXCEPT !.wild = TRUE]
+     ELSE
+     LET w == IF s.rd = "open" THEN RDSeek(s, << >>) ELSE Out(s, << >>, "none", FALSE) IN
      /\ s.wild \/ (RDAllowed(s, w, Ev.k, Ev.n, Ev.err, Ev.obs) /\ ContentOK(s, Ev))
      /\ s' = IF s.wild THEN s ELSE RDNext(s, w, Ev.n, Ev.err)
   /\ UNCHANGED << cfg, fr >> /\ Adv
@@ -56,6 +60,7 @@ TRM ==
   /\ \E len \in BOOLEAN :
      LET w1 == NRWalk(s, len) IN
      IF s.wild THEN s' = s
+     ELSE IF ~s.failed /\ w1.res = "wild" THEN s' = w1.s
      ELSE IF s.failed \/ w1.res # "data" THEN
           /\ NRAllowed(s, w1, Ev.ok, Ev.type, Ev.err, Ev.obs) /\ Ev.n = 0
           /\ s' = NRNext(s, w1, Ev.err)
